@@ -69,6 +69,7 @@ func moreFacts(b *strings.Builder, root *pkgFiles, repo string) {
 	}
 	b.WriteString("]\n\n")
 	signingFacts(b, root, repo)
+	templateFacts(b, repo)
 }
 
 // dsigConstants resolves the string constants of the goxmldsig module the repository builds against.
@@ -169,4 +170,87 @@ func signingFacts(b *strings.Builder, root *pkgFiles, repo string) {
 		fmt.Fprintf(b, "(%s, %s)", leanStr(r.uri), leanStr(r.keyType))
 	}
 	b.WriteString("]\n\n")
+}
+
+// foldString folds a concatenation of string literals.
+func foldString(e ast.Expr) (string, bool) {
+	switch x := e.(type) {
+	case *ast.BasicLit:
+		if x.Kind == token.STRING {
+			return exprStr(x), true
+		}
+	case *ast.BinaryExpr:
+		if x.Op == token.ADD {
+			l, ok1 := foldString(x.X)
+			r, ok2 := foldString(x.Y)
+			return l + r, ok1 && ok2
+		}
+	case *ast.ParenExpr:
+		return foldString(x.X)
+	}
+	return "", false
+}
+
+// templateFacts: every `template.New(..).Parse(<literal>)` with the import path of `template` in that file.
+func templateFacts(b *strings.Builder, repo string) {
+	type tf struct{ file, imp, text string }
+	var out []tf
+	for _, dir := range []string{".", "samlidp", "samlsp"} {
+		p := parseDir(filepath.Join(repo, dir))
+		for _, fn := range sortedFileNames(p) {
+			f := p.files[fn]
+			imp := ""
+			for _, is := range f.Imports {
+				path := strings.Trim(is.Path.Value, "\"")
+				if path == "html/template" || path == "text/template" {
+					if is.Name == nil || is.Name.Name == "template" {
+						imp = path
+					}
+				}
+			}
+			ast.Inspect(f, func(n ast.Node) bool {
+				ce, ok := n.(*ast.CallExpr)
+				if !ok || len(ce.Args) != 1 {
+					return true
+				}
+				se, ok := ce.Fun.(*ast.SelectorExpr)
+				if !ok || se.Sel.Name != "Parse" {
+					return true
+				}
+				inner, ok := se.X.(*ast.CallExpr)
+				if !ok || exprStr(inner.Fun) != "template.New" {
+					return true
+				}
+				txt, ok := foldString(ce.Args[0])
+				if !ok {
+					fail("%s/%s: template text is not a constant string", dir, fn)
+					return true
+				}
+				out = append(out, tf{filepath.Join(dir, fn), imp, txt})
+				return true
+			})
+		}
+	}
+	b.WriteString("/-- every template the library parses: (file, import path of `template`, UTF-8 bytes of the text) -/\ndef templates : List (String × String × List UInt8) := [\n")
+	for i, t := range out {
+		sep := ","
+		if i == len(out)-1 {
+			sep = ""
+		}
+		fmt.Fprintf(b, "  (%s, %s, %s)%s\n", leanStr(t.file), leanStr(t.imp), byteList(t.text), sep)
+	}
+	b.WriteString("]\n\n")
+}
+
+func byteList(s string) string {
+	var sb strings.Builder
+	sb.WriteString("[")
+	for i := 0; i < len(s); i++ {
+		if i > 0 {
+			sb.WriteString(", ")
+		}
+		fmt.Fprintf(&sb, "%d", s[i])
+	}
+	sb.WriteString("]")
+	return sb.String()
 }
